@@ -773,7 +773,7 @@ Lemma srel_do_media xs h c sid s to mk stream media :
 Proof.
   intros Hs. unfold do_media. destruct to as [i|u| |]; try apply srel_refl.
   destruct (N.eqb mk 0).
-  - destruct (negb (offer_allowed (s_perms s) stream media)); [apply srel_refl|].
+  - destruct (negb (offer_allowed (s_perms s) stream _)); [apply srel_refl|].
     destruct (aget (s_pubs s) stream); [|apply srel_start_create].
     eapply srel_trans; [|apply srel_send_session]. apply stab_srel. apply stab_put with s; auto.
   - destruct (N.eqb mk 1).
@@ -983,12 +983,16 @@ Proof.
         assert (x <> c') by congruence. rewrite aget_adel_other, aget_aset_other; auto.
       - unfold send_conn. rewrite Hc'. repeat split; reflexivity. }
     destruct P as [h1 outs1]. cbn [fst] in HP. destruct HP as (A & B & C). cbn [fst].
-    apply (ri_reattach h _ n s (sess_pending (sess_conn s (Some c)) []) c); auto.
-    + eapply conn_free; eauto. apply I.
-    + cbn [h_sessions set_conns set_clients set_expired put_sess set_sessions]. now rewrite A.
-    + exists (mkconn (c_addr cn) (Some n) false). split; [|reflexivity]. cbn [h_conns set_conns]. apply aget_aset_same.
-    + intros x Hx Hsx. cbn [h_conns set_conns set_clients set_expired put_sess set_sessions].
-      rewrite aget_aset_other by exact Hx. now apply C.
+    match goal with |- RI (fst (if _ then _ else (?hh, _))) => assert (I5 : RI hh) end.
+    { apply (ri_reattach h _ n s (sess_pending (sess_conn s (Some c)) []) c); auto.
+      + eapply conn_free; eauto. apply I.
+      + cbn [h_sessions set_conns set_clients set_expired put_sess set_sessions]. now rewrite A.
+      + exists (mkconn (c_addr cn) (Some n) false). split; [|reflexivity]. cbn [h_conns set_conns]. apply aget_aset_same.
+      + intros x Hx Hsx. cbn [h_conns set_conns set_clients set_expired put_sess set_sessions].
+        rewrite aget_aset_other by exact Hx. now apply C. }
+    destruct (queue_closes s); [|exact I5].
+    match goal with |- context [close_conn ?hh c] => destruct (close_conn hh c) as [h6 o6] eqn:H6 end. cbn [fst].
+    rewrite (fst_eq _ _ _ H6). eapply ri_srel0; [apply srel_close_conn|exact I5].
 Qed.
 
 (* ------------------------------------------------------------------ joining *)
